@@ -398,3 +398,13 @@ def gaussian_variance_guarded(ck, prog):
 def run(ck, prog):
     _run_pre_vardiv(ck, prog)
     gaussian_variance_guarded(ck, prog)
+
+
+# ------------------------------------------------------------------ generic: `while counter < bound` loops advance their counter
+_run_pre_progress = run
+
+
+def run(ck, prog):
+    _run_pre_progress(ck, prog)
+    from sa import progress
+    progress.run_rule(ck, prog, set(DIMENSION_FILES))
